@@ -63,3 +63,10 @@ claim("C14", "property-based testing against a reference model: an independent n
       "ill-shaped merge values, !!set / !!omap / !!pairs of every shape, unhashable keys; SafeLoader and CSafeLoader, each document loaded twice. Oracle: vlib/ref_construct.py says either the "
       "value (compared type-strictly on values, by dict equality on keys, key order for merge-free mappings) or 'ill-shaped', in which case exactly ConstructorError must be raised.",
       "Trusted: vlib/ref_construct.py, vlib/ref_scalar.py, and yaml.compose for the node graph. Recursive merges are outside the generated domain.")
+claim("C13", "property-based testing of generated alias graphs: parallel walk of the loaded object graph (and the composed node graph) against the abstract graph, bijection oracle; single-defect ill-formed arm (Hypothesis)",
+      "Generated search: abstract graphs (list, dict, set, omap, pairs, scalars; python/tuple and python/object instances with and without __setstate__, instances as keys) with aliases to "
+      "finished nodes and to ancestors, one or two documents; Safe/Full/Unsafe x pure-Python/LibYAML loaders and compose. Oracle: the relation abstract node <-> Python object built by a "
+      "parallel walk must be a bijection and contents must match; exactly one injected defect (undefined/forward alias, alias into the previous document, duplicate anchor, container as "
+      "its own key or set member) must raise ComposerError / ConstructorError; no RecursionError; call budget.",
+      "Trusted: the renderer/expectation in checks/c13.py. Cycles through python/tuple or inside a __setstate__ state may be built or rejected; one known finding (cycle first reached in deep "
+      "mode is rejected) is excluded by a predicate on the document (it contains a __setstate__ class and a cycle), which also hides other wrong rejections in that class of documents.")
